@@ -144,6 +144,21 @@ class C01(Check):
                     if est_cost(pool[y], d) <= COST_LIMIT:
                         ops.append(["q", rng.choice(["mod", "mod", "aligned"]), y, d])
                 continue
+            if rng.random() < 0.04:
+                # directed: exact repetitions (k between d and 3d) of an element whose residues modulo a COMPOSITE d are whole
+                # cosets of a proper subgroup ({0,1} + {0,8} mod 16): the k-fold sumset does not fill up as fast as for a prime d
+                d = rng.choice([10, 12, 14, 15, 16, 18, 20, 24])
+                pf = rng.choice([q0 for q0 in (2, 3, 5, 7) if d % q0 == 0])
+                sub = [i * (d // pf) + rng.choice([0, 0, d]) for i in range(pf)]
+                offs = list(range(rng.randint(2, max(2, d // pf - 1))))
+                a, b = emit(["leaf", sorted(set(offs))]), emit(["leaf", sorted(set(sub))])
+                x = emit(["cat", [a, b]])
+                for k in rng.sample(range(d, 3 * d + 2), 4):
+                    y = emit(["rep", x, k])
+                    for dd in (d, 2 * d):
+                        if est_cost(pool[y], dd) <= COST_LIMIT:
+                            ops.append(["q", rng.choice(["mod", "mod", "aligned"]), y, dd])
+                continue
             if len(pool) < 2 or rng.random() < 0.12:
                 op = ["leaf", leaf()]
                 if rng.random() < 0.2 and len(op[1]) == 1:
